@@ -338,11 +338,20 @@ def check_math_ops(ctx, n):
     vmf, kvm, sm = M.get()
     rng = random.Random(f'math:{ctx.seed}')
     import operator as op
-    def vec(): return rng.choice([sm.Vec, sm.FrozenVec])(U.r_num(rng), U.r_num(rng), U.r_num(rng))
-    def ang(): return rng.choice([sm.Angle, sm.FrozenAngle])(rng.choice([0, 45, 90, 270, 12.5]), rng.choice([0, 90, 180, 359]), rng.choice([0, 30, 45]))
+    # neutral operands (zero vector, identity rotation, factor 1) are over-represented: "fast paths" live there
+    def vec():
+        cls = rng.choice([sm.Vec, sm.FrozenVec])
+        r = rng.random()
+        if r < 0.10: return cls(0, 0, 0)
+        if r < 0.14: return cls(1, 1, 1)
+        return cls(U.r_num(rng), U.r_num(rng), U.r_num(rng))
+    def ang():
+        cls = rng.choice([sm.Angle, sm.FrozenAngle])
+        if rng.random() < 0.12: return cls(0, 0, 0)
+        return cls(rng.choice([0, 45, 90, 270, 12.5]), rng.choice([0, 90, 180, 359]), rng.choice([0, 30, 45]))
     def mat(): return rng.choice([sm.Matrix, sm.FrozenMatrix]).from_angle(ang()) if rng.random() < 0.8 else rng.choice([sm.Matrix, sm.FrozenMatrix])()
-    def scal(): return rng.choice([2, 0.5, -1, 3.0, 7])
-    def tup(): return (U.r_num(rng), U.r_num(rng), U.r_num(rng))
+    def scal(): return rng.choice([2, 0.5, -1, 3.0, 7, 1, 1.0, 0])
+    def tup(): return (0, 0, 0) if rng.random() < 0.1 else (U.r_num(rng), U.r_num(rng), U.r_num(rng))
     binops = [('add', op.add, vec, lambda: rng.choice([vec, tup, scal])()), ('sub', op.sub, vec, lambda: rng.choice([vec, tup, scal])()),
               ('radd', lambda a, b: b + a, vec, lambda: rng.choice([tup, scal])()), ('rsub', lambda a, b: b - a, vec, lambda: rng.choice([tup, scal])()),
               ('mul', op.mul, vec, scal), ('rmul', lambda a, b: b * a, vec, scal), ('truediv', op.truediv, vec, scal),
@@ -354,7 +363,7 @@ def check_math_ops(ctx, n):
               ('mat@mat', op.matmul, mat, mat), ('mat@ang', op.matmul, mat, ang),
               ('cross', lambda a, b: a.cross(b), vec, vec), ('dot', lambda a, b: a.dot(b), vec, vec),
               ('lerp-like', lambda a, b: (a + b) / 2, vec, vec)]
-    unops = [('neg', op.neg, vec), ('pos', op.pos, vec), ('abs', abs, vec), ('round', round, vec), ('norm', lambda v: v.norm() if v else v, vec),
+    unops = [('neg', op.neg, vec), ('pos', op.pos, vec), ('abs', abs, vec), ('round', round, vec), ('norm', lambda v: v.norm(), vec),
              ('vec.copy', lambda v: v.copy(), vec), ('ang.copy', lambda a: a.copy(), ang), ('mat.copy', lambda m: m.copy(), mat),
              ('mat.transpose', lambda m: m.transpose(), mat), ('mat.to_angle', lambda m: m.to_angle(), mat),
              ('thaw/freeze', lambda v: v.thaw() if hasattr(v, 'thaw') else v.freeze(), vec)]
